@@ -311,7 +311,7 @@ Proof.
 Qed.
 
 Lemma cfilter_roundtrip t bh fb items rest :
-  length bh = 32%nat -> zlen fb < 18446744073709551616 -> decode_gcs fb = Ok items ->
+  length bh = 32%nat -> zlen fb < 9223372036854775808 -> decode_gcs fb = Ok items ->
   exists b, cfilter_layout t bh fb = Ok b /\
             cfilter_parse (b ++ rest) = Ok (t, bh, fb, items, rest).
 Proof.
